@@ -32,43 +32,23 @@ pub fn mem_bound(len: usize) -> u64 {
 
 /// Known finding K4: a `route a, b, c { … }` block becomes one route configuration *per pattern*, each with its own deep
 /// copy of the block's settings (value strings, proxy target lists), so the memory for such a block is (patterns) x
-/// (size of the settings), not a constant multiple of the input. This is the allowance that explains: three times the
-/// product for every route block of the text, where a block's settings are its bytes plus 48 bytes per list element.
+/// (size of the settings), not a constant multiple of the input. The allowance that explains it: for every
+/// `route` line with more than one pattern, (patterns) x three times the input's own size (bytes + 48 per list element).
 pub fn config_route_allowance(data: &[u8]) -> u64 {
+    // Robust against odd layouts (comments after the brace, a brace on the next line, stray `route x` lines): every line
+    // that starts with `route` counts with its number of comma-separated patterns, and the settings it may copy are bounded
+    // by the whole input (its bytes plus 48 bytes per list element). Inputs without a multi-pattern route line get nothing.
     let text = String::from_utf8_lossy(data);
-    let lines: Vec<&str> = text.lines().collect();
+    let settings = 3 * (data.len() as u64 + 48 * (data.iter().filter(|b| **b == b',').count() as u64 + 1)) + 512;
     let mut total = 0u64;
-    let mut i = 0;
-    // a `#` outside double quotes starts a comment
-    fn code(l: &str) -> &str {
-        let mut in_q = false;
-        for (k, ch) in l.char_indices() {
-            match ch {
-                '"' => in_q = !in_q,
-                '#' if !in_q => return l[..k].trim(),
-                _ => {}
-            }
-        }
-        l.trim()
-    }
-    while i < lines.len() {
-        let l = code(lines[i]);
+    for line in text.lines() {
+        let l = line.trim_start();
         if l.starts_with("route") {
             let patterns = l.matches(',').count() as u64 + 1;
-            let mut bytes = 0u64;
-            let mut elements = 0u64;
-            let mut j = i + 1;
-            while j < lines.len() && code(lines[j]) != "}" {
-                bytes += lines[j].len() as u64 + 1;
-                elements += lines[j].matches(',').count() as u64 + 1;
-                j += 1;
-            }
             if patterns > 1 {
-                total += patterns * (3 * (bytes + 48 * elements) + 512);
+                total = total.saturating_add(patterns.saturating_mul(settings));
             }
-            i = j;
         }
-        i += 1;
     }
     total
 }
